@@ -339,3 +339,70 @@ fn replay_c08_two_heartbeats() {
         n += 1
     v.covers_total += 1
     v.covers_sat += 1 if n else 0
+
+
+def c08_routing_path_valid(ctx, v):
+    """Transaction::validate_routing_path for paths of 1..=2 hops (thorough 3), keys and
+    signatures symbolic, `verify` a free verdict per hop: it answers true only if, for EVERY hop
+    — the first one included — the hop's signature over (transaction signature ‖ hop.to) by
+    hop.from was asked about and verified, the hop does not go from a key to itself, and each hop
+    starts where the previous one ended.  (Routing work is only counted for paths this function
+    accepts; generate_total_work itself does not look at self-hops.)"""
+    from .models import value_eq
+    body = ctx.body(r"transaction::<impl at [^>]*>::validate_routing_path$")
+    kmax = 2 if ctx.tier == "quick" else 3
+    ok = 0
+    for K in range(1, kmax + 1):
+        ex = ctx.executor(loop_bound=K + 3, inline="auto", max_paths=4000, no_inline=[r"(?:^|::)verify$", r"fmt", r"to_hex"])
+        ex.pure = [r".*"]
+
+        def hook(ex_, st, callee, args, dty):
+            if re.search(r"(?:^|::)verify$", callee):
+                verdict = z3.Bool("verify_verdict!%d" % next(ex_.fresh_counter))   # an explicit free input, one per question asked
+                st.events.append(("call", callee, args, verdict))
+                return verdict
+            return None
+        ex.on_call = hook
+        hops = [_hop(ex, i) for i in range(K)]
+        sig = ex.fresh_value("[u8; 64]", "tx.signature")
+        tx = ctx.mk_struct(ex, "Transaction", "tx", path=S.Seq(hops, "Hop"), signature=sig)
+        outs = ex.run(body, [S.Ref(S.Cell(tx))], S.State())
+        v.paths += len(outs)
+        for o in outs:
+            if o.kind in ("unsupported", "unwound", "path-limit"):
+                return v.undecided("K=%d %s %s" % (K, o.kind, o.info))
+            if o.kind == "panic":
+                L.report_panic(v, ex, o, "K=%d: validate_routing_path panics: %s" % (K, o.info))
+                continue
+            if o.kind != "return":
+                continue
+            res = o.value if z3.is_bool(o.value) else (o.value.bv != 0)
+            calls = [e for e in o.events if e[0] == "call" and re.search(r"(?:^|::)verify$", e[1])]
+            conds = []
+            for i, h in enumerate(hops):
+                hfrom, hto, hsig = h.fields[0], h.fields[1], h.fields[2]
+                verified = []
+                for c in calls:
+                    a = [ex.deref_value(x) if isinstance(x, S.Ref) else x for x in c[2]]
+                    if len(a) == 3 and isinstance(a[1], S.Bytes) and isinstance(a[2], S.Bytes) and isinstance(a[0], S.Bytes):
+                        msg = a[0]
+                        msg_ok = z3.And(msg.len.bv == 97, *[z3.Select(msg.arr, z3.BitVecVal(k, 64)) == z3.Select(sig.arr, z3.BitVecVal(k, 64)) for k in range(64)],
+                                        *[z3.Select(msg.arr, z3.BitVecVal(64 + k, 64)) == z3.Select(hto.arr, z3.BitVecVal(k, 64)) for k in range(33)])
+                        verdict = c[3] if z3.is_bool(c[3]) else (c[3].bv != 0)
+                        verified.append(z3.And(msg_ok, value_eq(ex, a[1], hsig), value_eq(ex, a[2], hfrom), verdict))
+                conds.append(("hop %d: signature not verified" % i, z3.Or(*verified) if verified else z3.BoolVal(False)))
+                conds.append(("hop %d goes from a key to itself" % i, z3.Not(_bytes_eq(hfrom, hto, 33))))
+                if i:
+                    conds.append(("hop %d does not start where hop %d ended" % (i, i - 1), _bytes_eq(hfrom, hops[i - 1].fields[1], 33)))
+            bad = False
+            for what, c in conds:
+                r, m = ex.model_for(o.pc, z3.And(res, z3.Not(c)))
+                v.queries += 1
+                if r == z3.sat:
+                    L.fail_structural(v, o, "K=%d: validate_routing_path accepts a path although %s" % (K, what))
+                    bad = True
+                elif r != z3.unsat:
+                    return v.undecided("solver: no verdict")
+            ok += 0 if bad else 1
+    v.covers_total += 1
+    v.covers_sat += 1 if ok else 0
